@@ -596,7 +596,9 @@ fn valid() -> impl Strategy<Value = (usize, Vec<u8>, bool)> {
         (17usize, k.to_vec().unwrap(), false)
     });
     let fp = prop_oneof![3 => proptest::collection::vec(any::<u8>(), 32..=32), 1 => proptest::collection::vec(any::<u8>(), 0..40)].prop_map(|b| (18usize, b.iter().map(|x| format!("{x:02X}")).collect::<Vec<_>>().join(":").into_bytes(), true));
-    let link = ("[a-z0-9.-]{0,30}", any::<bool>()).prop_map(|(host, ok)| (19usize, format!("B3:5B:68:D5:CE:84:50:55:7C:6A:55:FD:64:B5:1F:EA:C1:10:CB:36:D6:A3:52:1C:59:48:DB:3A:38:0A:34:A9\n{host}\n{}", if ok { "https://x.example/.well-known/assetlinks.json" } else { "http://x.example/other" }).into_bytes(), true));
+    let link = (prop_oneof![1 => Just(String::new()), 4 => "[a-z0-9.-]{0,30}"], 0usize..ASSET_URLS.len()).prop_map(|(host, u)| (19usize, format!("B3:5B:68:D5:CE:84:50:55:7C:6A:55:FD:64:B5:1F:EA:C1:10:CB:36:D6:A3:52:1C:59:48:DB:3A:38:0A:34:A9\n{host}\n{}", ASSET_URLS[u]).into_bytes(), true));
+    // names assembled from labels, list rules and characters whose case mappings change the encoded length
+    let pieces = proptest::collection::vec(proptest::sample::select(vec!["\u{212A}", "\u{2126}", "\u{212B}", "\u{1E9E}", "\u{0130}", "\u{FB01}", "\u{00DF}", "a", "B", "www", ".", ".", "com", "co.uk", "ck", "test", "xn--", "\u{3002}"]), 1..10).prop_map(|v| (20usize, v.concat().into_bytes(), true));
     let names = prop_oneof!["[a-z0-9.-]{0,60}", "\\PC{0,30}", Just("a.".repeat(3000)), Just("www.ck".to_string()), Just("xn--55qx5d.cn".to_string())].prop_map(|s| (20usize, s.into_bytes(), true));
     let rp = (prop_oneof![Just("https://"), Just("http://"), Just(""), Just("ftp://")], "[a-z0-9.-]{0,40}", proptest::option::of("[a-zA-Z0-9.\\-\u{80}-\u{200}]{0,40}")).prop_map(|(scheme, host, rp)| (21usize, format!("{scheme}{host}{}", rp.map(|r| format!("\n{r}")).unwrap_or_default()).into_bytes(), true));
     let bytes_cbor = proptest::collection::vec(any::<u8>(), 0..100).prop_map(|b| {
@@ -627,6 +629,7 @@ fn valid() -> impl Strategy<Value = (usize, Vec<u8>, bool)> {
         1 => fp,
         1 => link,
         1 => names,
+        1 => pieces,
         1 => rp,
         1 => bytes_cbor,
         1 => bytes_arr,
@@ -672,6 +675,17 @@ pub fn gen_case(seed: u64, i: u64) -> Case {
 }
 
 // fixed regression inputs (the defect classes found while reading the code)
+const ASSET_URLS: [&str; 8] = [
+    "https://x.example/.well-known/assetlinks.json",
+    "http://x.example/other",
+    "https://192.0.2.7/.well-known/assetlinks.json",
+    "https://[2001:db8::1]/.well-known/assetlinks.json",
+    "https://3232235777/.well-known/assetlinks.json",
+    "https://x.example:8443/.well-known/assetlinks.json",
+    "https://user@x.example/.well-known/assetlinks.json",
+    "https://localhost/.well-known/assetlinks.json",
+];
+
 fn fixed_cases() -> Vec<Case> {
     let mut v = vec![];
     let mut add = |decoder: usize, hexs: &str, origin: &str| v.push(Case { decoder, input_hex: hexs.replace(' ', ""), origin: origin.into() });
@@ -700,6 +714,24 @@ fn fixed_cases() -> Vec<Case> {
     // COSE key with a 31-byte x
     let k = coset::CoseKeyBuilder::new_ec2_pub_key(coset::iana::EllipticCurve::P_256, vec![1; 31], vec![2; 32]).algorithm(coset::iana::Algorithm::ES256).build();
     v.push(Case { decoder: 17, input_hex: hex(&k.to_vec().unwrap()), origin: "fixed:D11-cose-31".into() });
+    // names with characters whose case mappings change the encoded length (Kelvin sign, Ohm sign, Angstrom sign, capital
+    // sharp s, dotted capital I, ligatures), in front of and inside list rules
+    for special in ["\u{212A}", "\u{2126}", "\u{212B}", "\u{1E9E}", "\u{0130}", "\u{FB01}", "\u{01C5}", "\u{00DF}"] {
+        for n in 1..=5usize {
+            for tail in ["com", "test.ck", "co.uk", "www.ck", "city.kobe.jp"] {
+                v.push(Case { decoder: 20, input_hex: hex(format!("{}.{tail}", special.repeat(n)).as_bytes()), origin: "fixed:case-mapping-lengths".into() });
+                v.push(Case { decoder: 20, input_hex: hex(format!("a.{}.{tail}", special.repeat(n)).as_bytes()), origin: "fixed:case-mapping-lengths".into() });
+                v.push(Case { decoder: 21, input_hex: hex(format!("{}.{tail}\n{tail}", special.repeat(n)).as_bytes()), origin: "fixed:case-mapping-lengths".into() });
+            }
+        }
+    }
+    // asset links: no host given, statement URLs whose host is an address or carries a port
+    let fp = "B3:5B:68:D5:CE:84:50:55:7C:6A:55:FD:64:B5:1F:EA:C1:10:CB:36:D6:A3:52:1C:59:48:DB:3A:38:0A:34:A9";
+    for host in ["", ".", "example.com", "192.0.2.7", "[2001:db8::1]"] {
+        for url in ASSET_URLS {
+            v.push(Case { decoder: 19, input_hex: hex(format!("{fp}\n{host}\n{url}").as_bytes()), origin: "fixed:asset-link-hosts".into() });
+        }
+    }
     v
 }
 
